@@ -85,4 +85,43 @@ def maxNum : Nat := 3 * (225 + 225 + 120 + 225) * 7
     t, t+1, …, t+n−1 -/
 def samplesIn (t n : Nat) : Nat := (t + n + 94) / 95 - (t + 94) / 95
 
+/-! ## C19 – channel status and length counters -/
+
+/-- a length clock happens every 16384 clocks (256 Hz): the frame sequencer steps every 8192
+    clocks and clocks the length counters on its even steps -/
+def lenClockPeriod : Nat := 16384
+def frameStepPeriod : Nat := 8192
+
+/-- number of length clocks a channel loaded with length data `t` stays on; M = 64 (256 for channel 3) -/
+def lengthClocksFor (M t : Nat) : Nat := M - t % M
+
+/-- the documented per-channel status / length machine -/
+structure Len where
+  on : Bool        -- NR52 status bit
+  enable : Bool    -- NRx4 bit 6
+  count : Nat      -- remaining length clocks
+deriving DecidableEq, Repr
+
+/-- one length clock: an enabled, non-zero counter is decremented; reaching zero switches the channel off -/
+def Len.clock (l : Len) : Len :=
+  if l.enable = true ∧ l.count > 0 then ⟨l.on && decide (l.count ≠ 1), l.enable, l.count - 1⟩ else l
+
+/-- k length clocks -/
+def Len.clocks : Nat → Len → Len
+  | 0, l => l
+  | k + 1, l => Len.clocks k l.clock
+
+/-- NRx4 write, documented: the extra length clock when length becomes enabled in the first half of
+    a frame-sequencer period (the next step does not clock length) – it can switch the channel off
+    unless the same write triggers; a trigger reloads an expired counter with M, less the extra clock
+    again if length is enabled; the status bit after a trigger is the DAC state `dacOk` (for channel 1
+    together with "the sweep calculation did not overflow") -/
+def Len.writeNRx4 (M : Nat) (l : Len) (le trig firstHalf dacOk : Bool) : Len :=
+  let c1 := if !l.enable && le && decide (l.count > 0) && firstHalf then l.count - 1 else l.count
+  let on1 := if !l.enable && le && decide (l.count > 0) && firstHalf then l.on && !(decide (c1 = 0) && !trig) else l.on
+  if trig then
+    let c2 := if c1 = 0 then M else c1
+    ⟨dacOk, le, if le && decide (c2 = M) && firstHalf then c2 - 1 else c2⟩
+  else ⟨on1, le, c1⟩
+
 end Tetro.Spec.Apu
